@@ -4,7 +4,7 @@
 
 use serde_json::{json, Map, Value};
 use std::collections::BTreeMap;
-use std::time::Instant;
+use std::time::SystemTime;
 
 pub struct Violation {
     /// stable signature: site + input class; matched against known_findings.txt
@@ -16,7 +16,7 @@ pub struct Violation {
 
 pub struct EngineResult {
     pub property: String,
-    start: Instant,
+    start: SystemTime,
     pub coverage: Map<String, Value>,
     pub assumptions: Vec<String>,
     /// first violation per signature (simplest-first enumeration => shortest example) + count
@@ -29,7 +29,7 @@ impl EngineResult {
     pub fn new(property: &str) -> Self {
         EngineResult {
             property: property.to_string(),
-            start: Instant::now(),
+            start: SystemTime::now(),
             coverage: Map::new(),
             assumptions: Vec::new(),
             violations: BTreeMap::new(),
@@ -124,7 +124,7 @@ impl EngineResult {
             "property": self.property,
             "coverage": cov,
             "assumptions": self.assumptions,
-            "wall_s": self.start.elapsed().as_secs_f64(),
+            "wall_s": self.start.elapsed().map(|d| d.as_secs_f64()).unwrap_or(0.0),
             "violations": self.violations.values().map(|(v, n)| json!({
                 "sig": v.sig, "what": v.what, "count": n, "replay": v.replay
             })).collect::<Vec<_>>(),
